@@ -38,8 +38,24 @@ P5CFG = gen.Cfg(max_depth=3, leaf_dtypes=("int64", "float64"), records=False, un
 def _p5_cases(draw):
     T = draw(gen.types(P5CFG))
     vals = draw(gen.values(T, P5CFG))
-    return {"part": "P", "fn": draw(st.sampled_from(["flatten0", "flatten0", "flatten1", "flatten_none", "ravel", "num1", "local_index1", "unflatten"])),
-            "desc": draw(gen.encode(T, vals, P5CFG))}
+    fn = draw(st.sampled_from(["flatten0", "flatten0", "flatten0_union", "flatten1", "flatten_none", "ravel", "num1", "local_index1", "unflatten"]))
+    if fn == "flatten0_union":
+        # a union whose members carry the missing values themselves (valid: only option directly inside option/indexed is not), seen
+        # through a reordering IndexedArray - the encoding the generator's type-directed unions never produce
+        TA, TB = ["option", ["list", ["prim", "int64"]]], ["option", ["prim", "float64"]]
+        va, vb = draw(gen.values(TA, P5CFG)), draw(gen.values(TB, P5CFG))
+        tags = list(draw(st.permutations([0] * len(va) + [1] * len(vb))))
+        index, c = [], [0, 0]
+        for t in tags:
+            index.append(c[t])
+            c[t] += 1
+        u = {"class": "UnionArray8_64", "tags": tags, "index": index, "contents": [draw(gen.encode(TA, va, P5CFG)), draw(gen.encode(TB, vb, P5CFG))]}
+        n = len(tags)
+        if n and draw(st.booleans()):
+            u = {"class": draw(st.sampled_from(["IndexedArray32", "IndexedArrayU32", "IndexedArray64"])),
+                 "index": draw(st.lists(st.integers(0, n - 1), max_size=n + 2)), "content": u}
+        return {"part": "P", "fn": "flatten0", "desc": u}
+    return {"part": "P", "fn": fn, "desc": draw(gen.encode(T, vals, P5CFG))}
 
 
 def strategy(tier):  # noqa: F811
